@@ -13,9 +13,10 @@ CONSTANTS MaxDepth,
 
 Wrapper   == {"lfb", "ploads", "cloads"}          \* torch.storage._load_from_bytes, pickle.loads, _pickle.loads
 Container == {"bare", "legacy", "zip"}
-Inner     == {"allowed", "sink", "dangerous"}
+Inner     == {"allowed", "sink", "dangerous", "mlonly"}    \* mlonly: standard-library classes the static check rates LIKELY_SAFE
 Entry     == {"load", "loads", "cload", "cloads"}
 AddSet    == {"none", "loaders", "loaders+other"}
+Layer     == {"ml", "ml+context", "ml+armed"}      \* what else is installed on pickle.load on top of the active environment
 \* a wrapper accepts only some serialisations of the next level
 Fits(w, c) == IF w = "lfb" THEN c \in {"legacy", "zip"} ELSE c = "bare"
 \* how the implementation of a wrapper reaches the pickle module for container c
@@ -23,11 +24,12 @@ Via(w, c) == IF w = "lfb" THEN "unpickler_class" ELSE "hooked_function"
 AllowedWrapper(w, adds) == w = "lfb" \/ adds # "none"
 AllowedInner(g, adds) == g = "allowed"
 
-VARIABLES chain, inner, entry, adds
-vars == <<chain, inner, entry, adds>>
+VARIABLES chain, inner, entry, adds, layer
+vars == <<chain, inner, entry, adds, layer>>
 Init == /\ \E d \in 0..MaxDepth : chain \in [1..d -> Wrapper \X Container]
         /\ \A i \in DOMAIN chain : Fits(chain[i][1], chain[i][2])
         /\ inner \in Inner /\ entry \in Entry /\ adds \in AddSet
+        /\ layer \in (IF entry = "load" THEN Layer ELSE {"ml"})       \* the extra layers only sit on pickle.load
 Next == UNCHANGED vars
 Spec == Init /\ [][Next]_vars
 
@@ -41,6 +43,6 @@ FirstOutsider ==
 \* design prediction: the outsider at level i is blocked iff the unpickler of level i is mediated
 DesignBlocks == FirstOutsider = -1 \/ Mediated(FirstOutsider)
 MediatesAll == DesignBlocks
-Emit == PrintT(<<"CASE", ToJson([chain |-> chain, inner |-> inner, entry |-> entry, adds |-> adds,
+Emit == PrintT(<<"CASE", ToJson([chain |-> chain, inner |-> inner, entry |-> entry, adds |-> adds, layer |-> layer,
                                  outsider |-> FirstOutsider # -1])>>)
 =============================================================================
